@@ -20,16 +20,18 @@ package state
 
 // Commit removes an account from the trie only if it self-destructed or is a dirty, empty account
 // and empty-account deletion was requested: accounts that were merely read are never deleted, so
-// the committed root does not depend on which accounts were looked at.
+// the committed root does not depend on which accounts were looked at (C09), and the state that
+// is stored is the state whose root the validator compared with the header (C01): Finalise /
+// IntermediateRoot apply the same rule.
 //@ macro newlydeleted(s, a) = has(s.stateObjects, a) && s.stateObjects[a] != nil && s.stateObjects[a].deleted && !old(s.stateObjects[a].deleted)
 //@ func StateDB.Commit
-//@   requires[C09] s != nil && s.stateObjects != nil
-//@   requires[C09] forall a common.Address, b common.Address :: a != b && has(s.stateObjects, a) && has(s.stateObjects, b) && s.stateObjects[a] != nil ==> s.stateObjects[a] != s.stateObjects[b]
-//@   ensures[C09] @deleteonly forall a common.Address :: newlydeleted(s, a) ==> old(s.stateObjects[a].suicided) || (old(has(s.stateObjectsDirty, a)) && deleteEmptyObjects)
-//@   loop 1 invariant[C09] forall a common.Address :: newlydeleted(s, a) ==> old(s.stateObjects[a].suicided) || (old(has(s.stateObjectsDirty, a)) && deleteEmptyObjects)
-//@   loop 1 invariant[C09] s.stateObjects == old(s.stateObjects) && (forall a common.Address :: has(s.stateObjects, a) == old(has(s.stateObjects, a)) && s.stateObjects[a] == old(s.stateObjects[a]))
-//@   loop 1 invariant[C09] forall a common.Address :: !$seen(a) ==> has(s.stateObjectsDirty, a) == old(has(s.stateObjectsDirty, a))
-//@   loop 1 invariant[C09] forall a common.Address :: has(s.stateObjects, a) && s.stateObjects[a] != nil ==> s.stateObjects[a].suicided == old(s.stateObjects[a].suicided)
+//@   requires[C01,C09] s != nil && s.stateObjects != nil
+//@   requires[C01,C09] forall a common.Address, b common.Address :: a != b && has(s.stateObjects, a) && has(s.stateObjects, b) && s.stateObjects[a] != nil ==> s.stateObjects[a] != s.stateObjects[b]
+//@   ensures[C01,C09] @deleteonly forall a common.Address :: newlydeleted(s, a) ==> old(s.stateObjects[a].suicided) || (old(has(s.stateObjectsDirty, a)) && deleteEmptyObjects)
+//@   loop 1 invariant[C01,C09] forall a common.Address :: newlydeleted(s, a) ==> old(s.stateObjects[a].suicided) || (old(has(s.stateObjectsDirty, a)) && deleteEmptyObjects)
+//@   loop 1 invariant[C01,C09] s.stateObjects == old(s.stateObjects) && (forall a common.Address :: has(s.stateObjects, a) == old(has(s.stateObjects, a)) && s.stateObjects[a] == old(s.stateObjects[a]))
+//@   loop 1 invariant[C01,C09] forall a common.Address :: !$seen(a) ==> has(s.stateObjectsDirty, a) == old(has(s.stateObjectsDirty, a))
+//@   loop 1 invariant[C01,C09] forall a common.Address :: has(s.stateObjects, a) && s.stateObjects[a] != nil ==> s.stateObjects[a].suicided == old(s.stateObjects[a].suicided)
 //@   keeps big
 
 // ---- journalling (C09) ------------------------------------------------------------------------
